@@ -50,6 +50,15 @@ class View:
         return 'View(%s,%s)' % (self.arr.name, self.axes)
 
 
+class FlatAlias:
+    """`A.reshape(-1)` / `A.ravel()` of a local array A allocated in C order (np.zeros(shape) ...): a 1-D view of A's memory"""
+    def __init__(self, arr, text):
+        self.arr, self.text = arr, text
+
+    def __repr__(self):
+        return 'Opaque(%s)' % self.text
+
+
 class TupleV:
     def __init__(self, items):
         self.items = list(items)
@@ -366,7 +375,7 @@ class Interp:
             return Rat.atom(App('arr', [v.name]))
         if isinstance(v, View):
             return Rat.atom(App('view', [v.arr.name, _axes_key(v.axes)]))
-        if isinstance(v, Opaque):
+        if isinstance(v, (Opaque, FlatAlias)):
             return Rat.atom(App('opaque', [v.text]))
         if isinstance(v, tuple) and v and v[0] in ('cmp', 'and', 'or', 'not', 'truth', 'const'):
             return Rat.atom(App('bool', [cond_arg(v)]))
@@ -862,6 +871,11 @@ class Interp:
                 return None
             if meth in ('min', 'max', 'sum', 'mean', 'std', 'var', 'ptp', 'any', 'all'):
                 return Rat.atom(App('reduce:' + meth, [Rat.atom(App('arr', [arr.name]))]))
+            if meth in ('ravel', 'reshape') and arr.init != 'param' and arr.like is None and getattr(arr, 'var', None) and \
+                    isinstance(arr.shape, (list, tuple)) and getattr(arr, 'alloc_node', None) is not None and \
+                    not any(k_.arg == 'order' for k_ in arr.alloc_node.keywords) and not e.keywords and \
+                    ((meth == 'ravel' and not e.args) or (meth == 'reshape' and len(e.args) == 1 and norm(e.args[0]) in ('-1', '(-1,)'))):
+                return FlatAlias(arr, norm(e))
             if meth in ('ravel', 'flatten', 'reshape'):
                 return Opaque(norm(e))
         if isinstance(obj, View) and meth in ('min', 'max', 'sum', 'mean', 'std', 'var', 'any', 'all'):
@@ -1359,6 +1373,8 @@ class Interp:
             return
         if isinstance(t, ast.Subscript):
             base = self.ev(t.value)
+            if isinstance(base, FlatAlias) and self._masked_flat_store(base, t, node):
+                return
             arr = self.as_arr(base, getattr(t.value, 'id', None))
             if arr is None and isinstance(base, View):
                 idx = self.index_list(t.slice)
@@ -1392,6 +1408,45 @@ class Interp:
             self.k.calls.append(('setattr:' + norm(t), [v], list(self.guards), node))
             return
         self.incomplete(node, 'assignment target')
+
+    def _masked_flat_store(self, fa, t, node):
+        """`F[F == v] = w` / `F[np.equal(F, v)] = w` with F a flat view of the local array A: every cell of A that holds v
+        gets w.  Read as the sweep it abbreviates - `for r: for c: if A[r, c] == v: A[r, c] = w` (a cell is tested before it
+        is written and only matching cells are written, so the interleaving does not matter; v and w are scalars)."""
+        arr = fa.arr
+        if self.env.get(arr.var) is not arr or not isinstance(arr.shape, (list, tuple)) or len(arr.shape) not in (1, 2):
+            return False
+        m_ = t.slice
+        is_f = lambda x: isinstance(x, ast.Name) and self.env.get(x.id) is fa      # noqa
+        other = None
+        if isinstance(m_, ast.Compare) and len(m_.ops) == 1 and isinstance(m_.ops[0], ast.Eq):
+            a_, b_ = m_.left, m_.comparators[0]
+            other = b_ if is_f(a_) else (a_ if is_f(b_) else None)
+        elif isinstance(m_, ast.Call) and norm(m_.func).split('.')[-1] == 'equal' and len(m_.args) == 2 and not m_.keywords:
+            a_, b_ = m_.args
+            other = b_ if is_f(a_) else (a_ if is_f(b_) else None)
+        val = node.value if isinstance(node, ast.Assign) else None
+        if other is None or val is None:
+            return False
+        for x in (other, val):
+            if any(isinstance(y, ast.Name) and self.env.get(y.id) is fa for y in ast.walk(x)):
+                return False
+            xv = self.ev(x)
+            if not isinstance(xv, (Rat, int, float, bool)) and not (isinstance(xv, tuple) and xv and xv[0] == 'param'):
+                return False
+        self.fresh += 1
+        vs = ['_sweep%d_%d' % (self.fresh, i_) for i_ in range(len(arr.shape))]
+        cell = '%s[%s]' % (arr.var, ', '.join(vs))
+        src = ''
+        for i_, v_ in enumerate(vs):
+            src += '    ' * i_ + 'for %s in range(%s.shape[%d]):\n' % (v_, arr.var, i_)
+        src += '    ' * len(vs) + 'if %s == %s:\n' % (cell, ast.unparse(other))
+        src += '    ' * (len(vs) + 1) + '%s = %s\n' % (cell, ast.unparse(val))
+        loop = ast.parse(src).body[0]
+        for n_ in ast.walk(loop):
+            ast.copy_location(n_, node)
+        self.stmt(loop)
+        return True
 
     def store(self, arr, idx, value, node):
         if idx == 'all' and isinstance(value, Rat) and not self.guards and not self.loops:
